@@ -146,15 +146,15 @@ ADDED = {
  "C01": "; finite abstract evaluation (interpreter over constructor tags) of the per-block verification-mode expression; provenance rule for every Biscuit construction site; match-table rule for the per-block external-signature scheme; inlining of delegated payload generators",
  "C02": "; last-block selector rule for the seal; verbatim-copy rule (single-definition def chain) for root_key_id; table-threading rules of the append paths",
  "C03": "; per-evaluation scope-argument rule (the trust passed to query_match* is the variable computed from that query's scopes); verbatim-copy detection in Rule::translate",
- "C04": "; finite abstract evaluation of the final decision of authorize_inner (6 cells), of find_match (3) and of the policy-kind assignment; per-evaluation scope-argument rule; verbatim-copy detection in Rule::translate",
- "C05": "; finite abstract evaluation of the term matcher over all pairs of Term variants; both-operands rule (flow-sensitive may-depend per return, with a dominating-superset exception) for Origin::union",
- "C06": "; operand-role oracle for the non-commutative operators with pattern-binding tracking; stack pop-order rule; error-discipline rule for every symbol lookup",
+ "C04": "; finite abstract evaluation of the final decision of authorize_inner (6 cells, over the statements after the last loop), of find_match (3), of the policy-kind assignment and of check_match_all (loops interpreted zero times / once, 5 outcomes); per-evaluation scope-argument rule; verbatim-copy detection in Rule::translate",
+ "C05": "; finite abstract evaluation of the term matcher over all pairs of Term variants; lookup-agreement rule for SymbolTable::get / insert (default symbols and own strings); both-operands rule (flow-sensitive may-depend per return, with a dominating-superset exception) for Origin::union",
+ "C06": "; lookup-agreement rule for SymbolTable::get / insert; operand-role oracle for the non-commutative operators with pattern-binding tracking; stack pop-order rule; error-discipline rule for every symbol lookup",
  "C07": "; match-table rule for the scheme selection; single-use rule for the token-level table in the block loader",
  "C08": "; finite abstract evaluation of TokenNext::is_sealed / keypair; last-block selector rule",
- "C09": "; allow-list premises re-evaluated against the rule instances of the property they cite",
+ "C09": "; allow-list premises re-evaluated against the rule instances of the property they cite; allow-list entries follow a source that moves inside its function family; linear facts from checked_sub payloads",
  "C10": "; position rule fact-budget-before-fixpoint-exit; CFG rules on Authorizer::run (time recorded on every exit, evaluated-marker only under the success edge); unit agreement across snapshots",
  "C12": "; membership-test rule (no binary_search over unsorted tables); sibling rule for the two block accessors; single-use rule for the token-level table",
- "C13": "; unit agreement (as_nanos/from_nanos), zero-is-none guard, snapshot-table extension pairing, check-kind gate agreement of the two block loaders, saved-version dependence rule",
+ "C13": "; finite abstract evaluation of the origin writer; unit agreement (as_nanos/from_nanos), zero-is-none guard, snapshot-table extension pairing, check-kind gate agreement of the two block loaders, saved-version dependence rule",
  "C14": "; substituted-clone rule for parameterised printers; producer/consumer field-coverage rule by projected type (parser result vs loaders, block carriers vs printers); pop-order rule; sibling rule for the block accessors",
  "C16": "; finite abstract evaluation of check_compatibility (64 cells) and block_signature_version (40 cells) against the specification; gate-comparison rule for check kinds; unconditional-gate rule (not inside a loop or closure)",
  "C17": "; remainder rule for string conversions built on grammar parsers (callee ends with eof, or the remainder is used); whole-run hex decoding rule",
